@@ -1,8 +1,145 @@
 import JrsVerif.Common.J
+import JrsVerif.Model.Import
 
 namespace JrsVerif.Drv.C07
-open Lean JrsVerif.J
+open Lean JrsVerif.J JrsVerif.Import
 
-def handle (_op : String) (_j : Json) : Option Json := none
+def toBA (l : List Nat) : ByteArray := ⟨(l.map (fun n => n.toUInt8)).toArray⟩
+def validUtf8 (b : Bytes) : Bool := (String.fromUTF8? (toBA b)).isSome
+def decodeUtf8 (b : Bytes) : List Nat :=
+  match String.fromUTF8? (toBA b) with
+  | some s => s.toList.map Char.toNat
+  | none => []
+
+def pathOf (j : Json) : Option Path :=
+  match j with
+  | .arr a => some (strs a)
+  | _ => none
+
+def spellingOf (j : Json) : Option Spelling := do
+  let a ← bool? j "abs"
+  let c ← arr? j "c"
+  pure ⟨a, strs c⟩
+
+partial def exprOf (j : Json) : Option E := do
+  let k ← str? j "k"
+  match k with
+  | "lit" => some (.lit (← nat? j "n"))
+  | "imp" =>
+    let kind ← str? j "kind"
+    let sp ← spellingOf (← val? j "sp")
+    let kd : Kind := if kind == "import" then .imp else if kind == "str" then .str else .bin
+    some (.imp kd sp)
+  | "add" => some (.add (← exprOf (← val? j "a")) (← exprOf (← val? j "b")))
+  | "pick" => some (.pick (← exprOf (← val? j "a")) (← exprOf (← val? j "b")))
+  | _ => none
+
+def codeOfJson (j : Json) : Code :=
+  match val? j "code" with
+  | some (.str _) => .syntaxErr
+  | some c =>
+    match c.getNat? with
+    | .ok n => .expr (.lit n)
+    | .error _ =>
+      match exprOf c with
+      | some e => .expr e
+      | none => .syntaxErr
+  | none => .syntaxErr
+
+def nodeOf (j : Json) : Option (Path × Node) := do
+  let p ← pathOf (← val? j "p")
+  let k ← str? j "k"
+  match k with
+  | "dir" => some (p, .dir)
+  | "link" => some (p, .link (← pathOf (← val? j "to")))
+  | "file" => some (p, .file (nats (← arr? j "bytes")) (codeOfJson j))
+  | _ => none
+
+def opOf (j : Json) : Option Op := do
+  let kind ← str? j "kind"
+  let sp ← spellingOf (← val? j "sp")
+  let kd : Kind := if kind == "import" then .imp else if kind == "str" then .str else .bin
+  let fault : Option Fault :=
+    match optNat j "fault" with
+    | some k => some ⟨k, (str? j "fmode") == some "vanish"⟩
+    | none => none
+  pure ⟨kd, sp, fault⟩
+
+structure Scenario where
+  w : World
+  dir : Path
+  ops : List Op
+
+def allSome {α} (l : List (Option α)) : Option (List α) :=
+  l.foldr (fun x acc => do let a ← x; let r ← acc; pure (a :: r)) (some [])
+
+def scenarioOf (j : Json) (jpaths : List Path) : Option Scenario := do
+  let nodes ← allSome ((← arr? j "fs").toList.map nodeOf)
+  let dir ← pathOf (← val? j "from")
+  let ops ← allSome ((← arr? j "ops").toList.map opOf)
+  pure ⟨⟨nodes, jpaths, validUtf8, decodeUtf8⟩, dir, ops⟩
+
+def pathsOf (j : Json) (k : String) : Option (List Path) := do
+  allSome ((← arr? j k).toList.map pathOf)
+
+def errCls : Err → String
+  | .notfound => "notfound" | .special => "special" | .io => "io" | .load c => c | .utf8 => "utf8"
+  | .syntax => "syntax" | .infrec => "infrec" | .noFrame => "model-noframe" | .fuel => "model-fuel"
+  | .panic => "model-panic"
+
+def spText (sp : Spelling) : String :=
+  let c := "/".intercalate sp.comps
+  if sp.abs then "<R>/" ++ c else c
+
+def outJson : Outcome → Json
+  | .num n => obj [("num", toJson n)]
+  | .str c => obj [("str", ofNats c)]
+  | .bin b => obj [("bin", ofNats b)]
+  | .err e => obj [("err", .str (errCls e))]
+
+def logJson : LogEntry → Json
+  | .resolve src sp res =>
+    let shown := match res with
+      | .ok p => "ok:f:" ++ showPath p
+      | .error e => "err:" ++ errCls e
+    .arr #[.str "r", .str src, .str (spText sp), .str shown]
+  | .load p res =>
+    let shown := match res with
+      | none => "ok"
+      | some c => "err:" ++ c
+    .arr #[.str "l", .str ("f:" ++ showPath p), .str shown]
+
+/-- CLI error classes: "can't resolve" vs anything else -/
+def cliOut : Outcome → Json
+  | .err .notfound => obj [("err", .str "notfound")]
+  | .err _ => obj [("err", .str "other")]
+  | o => outJson o
+
+def handle (op : String) (j : Json) : Option Json :=
+  match op with
+  | "import.replay" =>
+    match (do scenarioOf j (← pathsOf j "jpaths")) with
+    | none => some (bad "import.replay: parse")
+    | some sc =>
+      let rs := runOps sc.w sc.dir (Run.fresh sc.w.valid) sc.ops
+      some (obj [("model", obj [("res", .arr (rs.map (fun (o, l) =>
+        obj [("out", outJson o), ("log", .arr (l.map logJson).toArray)])).toArray)])])
+  | "import.outcomes" =>
+    match (do scenarioOf j (← pathsOf j "jpaths")) with
+    | none => some (bad "import.outcomes: parse")
+    | some sc =>
+      let rs := sc.ops.map (fun o =>
+        match o.fault with
+        | some _ => obj [("faulted", .bool true)]
+        | none => outJson (specOp sc.w sc.dir o))
+      some (obj [("spec", obj [("res", .arr rs.toArray), ("once", .bool true)])])
+  | "import.cli" =>
+    match (do scenarioOf j (searchPath (← pathsOf j "jflags") (← pathsOf j "env"))) with
+    | none => some (bad "import.cli: parse")
+    | some sc =>
+      -- the CLI imports its input with `SourceDefaultIgnoreJpath`; the input is given absolute
+      let rs := sc.ops.map (fun o => cliOut (specOp sc.w sc.dir o))
+      some (obj [("spec", obj [("res", .arr rs.toArray)])])
+  | _ => none
 
 end JrsVerif.Drv.C07
